@@ -3,6 +3,7 @@ package lua
 import (
 	"fmt"
 	"io"
+	"math/big"
 	"os"
 	"runtime"
 	"strconv"
@@ -432,27 +433,48 @@ func baseToNumber(L *LState) int {
 			}
 		} else {
 			// an integer written in the given base, blanks allowed around it
-			str := strings.Trim(string(lv), luaSpace)
-			if base == 16 {
-				// as C's strtoul: an optional 0x or 0X after the optional sign
-				sign, body := "", str
-				if len(body) > 0 && (body[0] == '-' || body[0] == '+') {
-					sign, body = body[:1], body[1:]
-				}
-				if len(body) > 2 && body[0] == '0' && (body[1] == 'x' || body[1] == 'X') {
-					str = sign + body[2:]
-				}
-			}
-			if v, err := strconv.ParseInt(str, base, LNumberBit); err != nil {
-				L.Push(LNil)
+			if v, ok := parseRadix(strings.Trim(string(lv), luaSpace), base); ok {
+				L.Push(v)
 			} else {
-				L.Push(LNumber(v))
+				L.Push(LNil)
 			}
 		}
 	default:
 		L.Push(LNil)
 	}
 	return 1
+}
+
+// parseRadix reads an optionally signed integer written in the given base (2..36), as tonumber
+// with an explicit base does: digits and letters below the base, for base 16 an optional 0x or 0X
+// after the sign (C's strtoul), nothing else. The value is the float64 nearest to the integer,
+// whatever its length.
+func parseRadix(str string, base int) (LNumber, bool) {
+	neg := false
+	if len(str) > 0 && (str[0] == '-' || str[0] == '+') {
+		neg = str[0] == '-'
+		str = str[1:]
+	}
+	if base == 16 && len(str) > 2 && str[0] == '0' && (str[1] == 'x' || str[1] == 'X') {
+		str = str[2:]
+	}
+	if len(str) == 0 || str[0] == '-' || str[0] == '+' {
+		return 0, false
+	}
+	var f float64
+	if v, err := strconv.ParseUint(str, base, 64); err == nil {
+		f = float64(v)
+	} else {
+		i, ok := new(big.Int).SetString(str, base)
+		if !ok {
+			return 0, false
+		}
+		f, _ = new(big.Float).SetInt(i).Float64()
+	}
+	if neg {
+		f = -f
+	}
+	return LNumber(f), true
 }
 
 func baseToString(L *LState) int {
